@@ -47,6 +47,11 @@ TEXT_FAULTS = [
     ("readonly_attr_collision_fix_y_plus", "pos", "cA cB {collision {fix {y += 5m}}};", "cA cB {shift {y += 5m}};", "", "", {"3120"}),
     ("glyph_metric_as_target", "pos", "cA {advancewidth = 5};", "cA {advance.x = 5};", "", "", {"1165"}),
     ("class_name_as_attribute", "sub", "cA > cB {cC = 5};", "cA > cB {user1 = 5};", "", "", {"1165"}),
+    # justification levels are 0..3: level 4 must be refused wherever it is mentioned, also after a class that uses level 3
+    ("justify_level_4", "sub", "cA > cB;", "cA > cB;", "cJ = glyphid(3) {justify.4.stretch = 50m};", "cJ = glyphid(3) {justify.3.stretch = 50m};", {"4122"}),
+    ("justify_level_4_after_level_3", "sub", "cA > cB;", "cA > cB;", "cJ = glyphid(3) {justify.3.stretch = 50m}; cK = glyphid(4) {justify.4.stretch = 50m};",
+     "cJ = glyphid(3) {justify.3.stretch = 50m}; cK = glyphid(4) {justify.2.stretch = 50m};", {"4122"}),
+    ("justify_level_4_in_rule_after_level_3", "pos", "cA {justify.4.stretch = 5m};", "cA {justify.2.stretch = 5m};", "cJ = glyphid(3) {justify.3.stretch = 50m};", "cJ = glyphid(3) {justify.3.stretch = 50m};", None),
     ("linebreak_in_rhs", "sub", "cA > #;", "cA > cB;", "", "", {"3138"}),
     ("linebreak_in_lhs", "sub", "# cA > # cB;", "cA > cB / # _;", "", "", {"3142", "3138"}),
     ("undefined_feature", "sub", "if (nofeat == 1) cA > cB; endif;", "if (f1 == 1) cA > cB; endif;", "", "", {"2120"}),
